@@ -17,7 +17,7 @@ MOD, GEN, JUDGE, JCFG = "MultipolygonMC", "MultipolygonGen", "MultipolygonJudge"
 # (name, shape family in MultipolygonMC.tla, MaxPieces, interleaving patterns, keep one case in `every`)
 FAM_QUICK = [
     ("one",      "S_One",      3, '{"all"}',              1),
-    ("hole33",   "S_Hole33",   2, '{"of", "alt"}',        1),
+    ("hole33",   "S_Hole33",   2, '{"of", "alt"}',        2),
     ("two33h1",  "S_Two33H1",  1, '{"all"}',              2),
     ("two33",    "S_Two33",    2, '{"all"}',              6),
     ("hole44",   "S_Hole44",   2, '{"of", "alt"}',        8),
@@ -37,7 +37,7 @@ FAM_THOROUGH = [
     ("two33h2",  "S_Two33H2",  1, '{"all"}',              6),
     ("two43h2",  "S_Two43H2",  1, '{"of", "if", "alt"}',  6),
     ("hole44",   "S_Hole44",   2, '{"of", "alt"}',        2),
-    ("notch",    "S_Notch",    2, '{"alt"}',              12),
+    ("notch",    "S_Notch",    2, '{"alt"}',              120),
 ]
 # documents of 2-3 relations sharing ways (MultipolygonDocs.tla): keep one case in `every` per family
 DOC_EVERY_QUICK = {"adj33": 1, "adj44": 4, "isl33": 2, "both333": 6}
